@@ -71,15 +71,59 @@ theorem clauses_find {Rr : CompileState → CompileState → Prop} (hR : StepRel
           intro y hy hne'
           exact mem_tfvClauses_tail (h5 y hy hne')
 
-/-- the state relation used by the simulation: freshness and `ς ∉ usedVars` -/
-def FS (a b : CompileState) : Prop := Fresh a b ∧ NoSigRel a b
-
-theorem fs_stepRel : StepRel FS where
-  refl := fun st => ⟨.refl st, noSig_stepRel.refl st⟩
-  trans := fun h1 h2 => ⟨h1.1.trans h2.1, noSig_stepRel.trans h1.2 h2.2⟩
-  freshVar := fun st => ⟨fresh_freshVar st, noSig_stepRel.freshVar st⟩
-  freshCovar := fun st => ⟨fresh_freshCovar st, noSig_stepRel.freshCovar st⟩
-  share := fun c st => ⟨fresh_share c st, noSig_stepRel.share c st⟩
+/-- the clause for the destructor `K` of a translated `new` -/
+theorem coclauses_find {Rr : CompileState → CompileState → Prop} (hR : StepRel Rr) (K : String) :
+    ∀ (cs : Fun.Clauses) (st : CompileState)
+    (cs' : Core.Clauses) (st' : CompileState) (cl : Fun.Clause),
+    compileCoclauses cs st = .ok (cs', st') → Fun.findClause K cs = some cl →
+    ∃ b' st1 st2 τ0, Fun.Term.getType cl.body = some τ0 ∧
+      Core.Clauses.find cs' ⟨K, 0⟩ =
+        some (compileContext cl.ctx ++ [⟨⟨(freshCovar st1).1, 0⟩, .cns, compileTy τ0⟩], b') ∧
+      compileWithCont cl.body (.var .cns ⟨(freshCovar st1).1, 0⟩ (compileTy τ0)) (freshCovar st1).2 =
+        .ok (b', st2) ∧ Rr st st1 ∧ Rr st2 st' ∧
+      (∀ y ∈ tfvStmt b' [],
+        (∀ bb ∈ compileContext cl.ctx ++ [⟨⟨(freshCovar st1).1, 0⟩, .cns, compileTy τ0⟩], bb ≠ y) →
+        y ∈ tfvClauses cs' [])
+  | .nil, _, _, _, _, _, hf => by simp [Fun.findClause] at hf
+  | .cons pol xtor names ctx body rest, st, cs', st', cl, hc, hf => by
+    rw [coclauses_cons] at hc
+    cases hty : getType body with
+    | none => simp [hty] at hc
+    | some τ0 =>
+      simp only [hty] at hc
+      cases hb : compileWithCont body (.var .cns ⟨(freshCovar st).1, 0⟩ (compileTy τ0))
+          (freshCovar st).2 with
+      | error e => simp [hb] at hc
+      | ok rb =>
+        obtain ⟨b, st1⟩ := rb
+        cases hr : compileCoclauses rest st1 with
+        | error e => simp [hb, hr] at hc
+        | ok rr =>
+          obtain ⟨r, st2⟩ := rr
+          simp only [hb, hr, Except.ok.injEq, Prod.mk.injEq] at hc
+          obtain ⟨rfl, rfl⟩ := hc
+          have hfb : Rr st st1 := hR.trans (hR.freshCovar st) ((rel_term hR body).1 _ _ b st1 hb)
+          have hfr : Rr st1 st2 := (rel_coclauses hR rest) st1 r st2 hr
+          simp only [Fun.findClause] at hf
+          by_cases hk : (K == xtor) = true
+          · simp only [hk, if_true, Option.some.injEq] at hf
+            subst hf
+            have hk' : K = xtor := by simpa using hk
+            subst hk'
+            refine ⟨b, st, st1, τ0, by rw [← getType_eq]; exact hty, by simp [Core.Clauses.find], hb,
+              hR.refl _, hfr, ?_⟩
+            intro y hy hne
+            exact mem_tfvClauses_head hy hne
+          · simp only [hk] at hf
+            obtain ⟨b', s1, s2, τ1, h0, h1, h2, h3, h4, h5⟩ :=
+              coclauses_find hR K rest st1 r st2 cl hr hf
+            have hne : ¬ (⟨xtor, 0⟩ : Core.Ident) = ⟨K, 0⟩ := by
+              intro e
+              have : xtor = K := by cases e; rfl
+              exact hk (by simp [this])
+            refine ⟨b', s1, s2, τ1, h0, by simp [Core.Clauses.find, hne, h1], h2, hR.trans hfb h3, h4, ?_⟩
+            intro y hy hne'
+            exact mem_tfvClauses_tail (h5 y hy hne')
 
 /-- names of the clauses of a `case`, for the clause found -/
 theorem findClause_mem : ∀ (cs : Fun.Clauses) (K : String) (cl : Fun.Clause),
@@ -105,20 +149,5 @@ theorem findClause_mem : ∀ (cs : Fun.Clauses) (K : String) (cl : Fun.Clause),
       · simp only [binderNamesClauses, List.mem_append]; exact .inr (h2 x hx)
       · simp only [binderNamesClauses, List.mem_append]; exact .inr (h3 x hx)
       · simp only [clausesNames, List.mem_append]; exact .inr (h4 x hx)
-
-/-- the clause found is a good clause -/
-theorem findClause_good : ∀ (cs : Fun.Clauses) (K : String) (cl : Fun.Clause),
-    goodClauses cs = true → Fun.findClause K cs = some cl →
-    good cl.body = true ∧ cl.names.Nodup ∧ cl.ctx.map (·.var) = cl.names
-  | .nil, _, _, _, hf => by simp [Fun.findClause] at hf
-  | .cons pol xtor names ctx body rest, K, cl, hg, hf => by
-    simp only [goodClauses, Bool.and_eq_true, decide_eq_true_eq] at hg
-    simp only [Fun.findClause] at hf
-    by_cases hk : (K == xtor) = true
-    · simp only [hk, if_true, Option.some.injEq] at hf
-      subst hf
-      exact ⟨hg.1.1.1, hg.1.1.2, hg.1.2⟩
-    · simp only [hk] at hf
-      exact findClause_good rest K cl hg.2 hf
 
 end Scc.Fun2Core.Sem
